@@ -4,7 +4,7 @@ import json
 import absval as A
 import blockrun as B
 
-RULE = ("(2 % of the blocks, 8 % in the thorough tier, sit on the scale axis: 255 ... 65537 frames or 15 ... 257 items) " 
+RULE = ("(2 % of the blocks, 4 % in the thorough tier, sit on the scale axis: 255 ... 65537 frames or 15 ... 257 items) " 
         "seeded shape-directed valid blocks of the nine types (0/1/many items, gap patterns incl. first/last/all-missing, "
         "labels of length 0,1,w-2,w-1, extreme floats, both 3D formats, both camera formats, float32 and float64 user arrays, "
         "both viewport spellings, arrays of four provenances); plus object life cycles: a block is printed/sized/encoded/decoded, edited in place through public attributes "
@@ -38,7 +38,7 @@ def judge(ctx, kind, v, opts, r, m):
 
 
 def run(ctx):
-    n = ctx.n(1500, 40000)
+    n = ctx.n(1500, 12000)
     for c0 in range(0, n, 2500):                   # in chunks: the thorough tier must not hold 40 000 encodings at once
         cases = B.gen_cases(ctx, min(2500, n - c0), big=ctx.thorough)
         models = B.model_side(cases)
